@@ -98,7 +98,8 @@ class Interp:
         n = p.counter.get(('obl', kind, rel), 0)
         p.counter[('obl', kind, rel)] = n + 1
         name = f'{kind}@L{rel}#{n}/p{p.pid()}'
-        p.obligs.append(Obligation(name, kind, list(p.pc), goal, line, p.pid(), note))
+        extra = [t for k, t in getattr(self, 'scoped', []) if k in kind]
+        p.obligs.append(Obligation(name, kind, list(p.pc) + extra, goal, line, p.pid(), note))
 
     # ================================================================ truth / equality / lifting
     def truth(self, v):
@@ -175,8 +176,15 @@ class Interp:
             return b
         if a is b:
             return a
-        if isinstance(a, tuple) and isinstance(b, tuple) and len(a) == len(b):
+        if isinstance(a, tuple) and isinstance(b, tuple) and len(a) == len(b) and not (a and isinstance(a[0], tuple)):
             return tuple(self.ite(c, x, y) for x, y in zip(a, b))
+        if isinstance(a, tuple) and isinstance(b, tuple):
+            srt = self.infer_seq_sort(a)
+            if srt is None:
+                srt = self.infer_seq_sort(b)
+            if srt is None:
+                raise Unsupported('ite of tuples of different length and unknown element sort')
+            return z3.If(c, self.zs.lift(a, srt), self.zs.lift(b, srt))
         if isinstance(a, VOpt) or isinstance(b, VOpt) or a is None or b is None:
             oa, ob = self.as_opt(a), self.as_opt(b)
             val = oa.val if ob.val is None else (ob.val if oa.val is None else self.ite(c, oa.val, ob.val))
@@ -204,6 +212,27 @@ class Interp:
             raise Unsupported(f'ite of concrete {a!r} / {b!r}')
         a2, b2 = self.zs.common(a, b)
         return z3.If(c, a2, b2)
+
+    def infer_seq_sort(self, items):
+        """z3 sequence sort of a python tuple of values (elements: terms, or tuples matching a declared record sort)"""
+        for x in items:
+            if z3.is_expr(x):
+                return z3.SeqSort(x.sort())
+            if isinstance(x, tuple):
+                for nm, (dt, S) in self.zs.recs.items():
+                    if len(S.fields) == len(x):
+                        try:
+                            self.zs.lift(x, dt)
+                            return z3.SeqSort(dt)
+                        except (TypeError, z3.Z3Exception):
+                            continue
+            if isinstance(x, str):
+                return z3.SeqSort(z3.StringSort())
+            if isinstance(x, bool):
+                return z3.SeqSort(z3.BoolSort())
+            if isinstance(x, int):
+                return z3.SeqSort(z3.IntSort())
+        return None
 
     def as_opt(self, v):
         if isinstance(v, VOpt):
